@@ -114,6 +114,8 @@ class RunProbe:
         self.fail = sc.get('fail', {})
         self.shapes = sc.get('shapes', {})
         self.emit = sc.get('emit', {})
+        self.chdir_to = None
+        self.chdir_nodes: set = set()
         self.save_armed: Optional[int] = None     # node whose save window is open (S0/S1)
         self.embed_ctx = sc.get('embed_ctx', True)
         self.on_end = None
@@ -166,6 +168,9 @@ class RunProbe:
         self.rec.ev('readfail', task.ident, dep.ident, type(exc).__name__, who)
 
     def work(self, task):
+        if self.chdir_to is not None and task.ident in self.chdir_nodes:
+            self.rec.fired('task-changes-cwd')
+            os.chdir(self.chdir_to)
         pat = self.emit.get(str(task.ident))
         if pat:
             import sys
@@ -186,6 +191,11 @@ class RunProbe:
                     sys.stdout.flush()
                 elif k == 'flush_err':
                     sys.stderr.flush()
+                elif k == 'raise':
+                    self.rec.ev('emit', task.ident, 'raise', None)
+                    self.rec.fired('emitter-raises')
+                    self.rec.ev('fault', 'raise', task.ident)
+                    raise PlannedFailure(task.ident)
                 elif k == 'die':
                     self.rec.ev('emit', task.ident, 'die', None)
                     e, _who = self._who()
@@ -713,15 +723,27 @@ def _execute(sc: dict, ch: Choices, storage_dir: Optional[str], storage_obj=None
 
     storage_kind = sc.get('storage', 'simlocal')
     sim_storage = None
+    # a storage directory given as a relative path, and tasks that change the working directory while they
+    # run (in-process substrates only: a simulated worker has no working directory of its own)
+    old_cwd = None
+    local_arg = storage_dir
+    if sc.get('rel_storage') and sim is None and storage_dir is not None and storage_obj is None and storage_kind != 'none':
+        old_cwd = os.getcwd()
+        os.chdir(os.path.dirname(os.path.abspath(storage_dir)))
+        local_arg = os.path.basename(os.path.abspath(storage_dir))
+        probe.chdir_to = os.path.abspath(storage_dir) + '.cwd'
+        os.makedirs(probe.chdir_to, exist_ok=True)
+        probe.chdir_nodes = set(sc.get('chdir_nodes') or [])
+        rec.fired('relative-storage-path')
     if storage_obj is not None:
         sim_storage = SimStorage(storage_obj, ctl, split_threshold=sc.get('split_threshold', 0))
         storage_arg: Any = sim_storage
     elif storage_dir is None or storage_kind == 'none':
         storage_arg = None
     elif storage_kind == 'local':
-        storage_arg = storage_dir
+        storage_arg = local_arg
     else:
-        sim_storage = SimStorage(LocalStorage(storage_dir), ctl, split_threshold=sc.get('split_threshold', 0))
+        sim_storage = SimStorage(LocalStorage(local_arg), ctl, split_threshold=sc.get('split_threshold', 0))
         sim_storage.local_dir = storage_dir
         sim_storage.delete_order = sc.get('delete_order')
         storage_arg = sim_storage
@@ -967,6 +989,9 @@ def _execute(sc: dict, ch: Choices, storage_dir: Optional[str], storage_obj=None
             _sys.stderr = real_stderr
         if sim_storage is not None:
             sim_storage.release()
+        if old_cwd is not None:
+            os.chdir(old_cwd)
+            shutil.rmtree(probe.chdir_to, ignore_errors=True)
 
     # result_meta of every constructed instance
     for i, insts in built.instances.items():
